@@ -24,6 +24,10 @@ pub struct Case {
     pub under: Under,
     pub layers: Vec<Layer>,
     pub tripwire: bool,
+    /// walk with `LinkBehavior::ReadTarget`: linked directories are directories (descended into,
+    /// and discardable as trees); re-entrant and dangling links are error items
+    #[serde(default)]
+    pub follow: bool,
 }
 
 pub fn gen_under(t: &mut Tape, tree: &TreeSpec, base: &Base) -> Under {
@@ -94,14 +98,14 @@ impl Property for C13 {
         384
     }
     fn required_counters(&self) -> Vec<&'static str> {
-        vec!["runs", "tree_verdict_on_link", "tree_discard_with_descendants", "two_tree_verdicts_same_directory", "tree_verdict_on_file", "tripwires_armed", "discard_on_walk_root", "file_verdict_on_directory"]
+        vec!["runs", "read_target_runs", "tree_verdict_on_followed_link", "tree_verdict_on_link", "tree_discard_with_descendants", "two_tree_verdicts_same_directory", "tree_verdict_on_file", "tripwires_armed", "discard_on_walk_root", "file_verdict_on_directory"]
     }
     fn decode(&self, t: &mut Tape) -> Case {
         let tree = gen_tree(t, &TreeCfg { links: true, ..TreeCfg::default() });
         let base = if t.chance(50) { gen_base(t, &tree) } else { Base::Abs };
         let under = gen_under(t, &tree, &base);
         let layers = gen_layers(t, &tree, 0);
-        Case { tree, base, under, layers, tripwire: t.chance(128) }
+        Case { tree, base, under, layers, tripwire: t.chance(128), follow: t.chance(70) }
     }
     fn directed(&self) -> Vec<Case> {
         let d = |p: &str| Node { path: p.into(), kind: Kind::Dir, unreadable: false };
@@ -113,6 +117,7 @@ impl Property for C13 {
             under: Under::Path,
             layers: vec![Layer::Table(vec![("a/x".into(), Verdict::Tree)]), Layer::Table(vec![("a/x".into(), Verdict::Tree)])],
             tripwire: false,
+            follow: false,
         }]
     }
     fn shrink(&self, c: &Case) -> Vec<Case> {
@@ -200,15 +205,50 @@ impl Property for C13 {
                 }
             }
         }
-        let entries = underlying_entries(&base_abs, glob_rt.as_ref(), false, None);
+        let entries = underlying_entries(&base_abs, glob_rt.as_ref(), case.follow, None);
+        let beh = WalkBehavior { link: if case.follow { wax::walk::LinkBehavior::ReadTarget } else { wax::walk::LinkBehavior::ReadFile }, ..WalkBehavior::default() };
+        // under ReadTarget re-entrant and dangling links are error items also on a fault-free tree
+        let link_errors: std::collections::BTreeSet<String> = if case.follow {
+            let (start, prefix) = match &glob_rt {
+                Some(g) if !g.prefix.is_empty() => (base_abs.join(&g.prefix), g.prefix.clone()),
+                _ => (base_abs.clone(), String::new()),
+            };
+            ref_walk(&start, true)
+                .into_iter()
+                .filter_map(|i| match i {
+                    RefItem::Error { rel, .. } => Some(norm(&if rel.is_empty() && prefix.is_empty() {
+                        base_given.clone()
+                    }
+                    else if prefix.is_empty() {
+                        base_given.join(&rel)
+                    }
+                    else if rel.is_empty() {
+                        base_given.join(&prefix)
+                    }
+                    else {
+                        base_given.join(&prefix).join(&rel)
+                    })),
+                    _ => None,
+                })
+                .collect()
+        }
+        else {
+            Default::default()
+        };
+        if case.follow {
+            st.count("read_target_runs");
+        }
         // the glob's own pruning is observed from a bare run (one probe, no layers) and validated
         let observed = match &glob_rt {
             None => None,
             Some(g) => {
                 let cap0 = 20 * (entries.len() + 10);
-                match guard(|| run_stack(&base_given, &case.under, &[], WalkBehavior::default(), cap0)) {
+                match guard(|| run_stack(&base_given, &case.under, &[], beh, cap0)) {
                     Ok(Ok(Some(o))) => {
-                        if o.capped || o.items.iter().any(|i| i.rel.is_none()) {
+                        if o.capped || o.items.iter().any(|i| match &i.seen {
+                            Seen::Err { path, .. } => !path.as_ref().map_or(false, |p| link_errors.contains(p)),
+                            _ => false,
+                        }) {
                             return Err(format!("glob `{}`: the bare walk does not terminate or yields an error item on a fault-free tree", g.glob));
                         }
                         let fed: std::collections::BTreeSet<String> = o.logs.last().unwrap().iter().cloned().collect();
@@ -231,7 +271,8 @@ impl Property for C13 {
         // tripwires
         let unprivileged = unsafe { libc::geteuid() } != 0;
         let mut armed = 0;
-        if case.tripwire && unprivileged {
+        // (not under ReadTarget: a directory reached through a link is also reachable directly)
+        if case.tripwire && unprivileged && !case.follow {
             for d in &m.discarded {
                 if d.is_empty() {
                     continue;
@@ -250,7 +291,7 @@ impl Property for C13 {
             st.add("tripwires_armed", armed);
         }
         let cap = 20 * (entries.len() + 10);
-        let run = guard(|| run_stack(&base_given, &case.under, &case.layers, WalkBehavior::default(), cap));
+        let run = guard(|| run_stack(&base_given, &case.under, &case.layers, beh, cap));
         let out = match run {
             Ok(Ok(Some(o))) => o,
             Ok(Ok(None)) => {
@@ -286,6 +327,9 @@ impl Property for C13 {
             });
             if hit {
                 st.count("tree_verdict_on_link");
+                if case.follow {
+                    st.count("tree_verdict_on_followed_link");
+                }
             }
         }
         if m.pruned_by_glob > 0 {
@@ -312,6 +356,9 @@ impl Property for C13 {
         // no error items on a fault-free tree (a tripwire that fires shows up here)
         for it in &out.items {
             if let Seen::Err { path, .. } = &it.seen {
+                if path.as_ref().map_or(false, |p| link_errors.contains(p)) {
+                    continue;
+                }
                 return Err(format!(
                     "{}: error item for {:?} — a directory the stack discards as a tree was read (cancellation not issued){}",
                     describe(),
@@ -337,7 +384,7 @@ impl Property for C13 {
         }
         // yielded == fed entries every layer keeps
         let yielded: std::collections::BTreeSet<String> = out.items.iter().filter_map(|i| i.rel.clone()).collect();
-        if yielded != m.yielded || out.items.len() != m.yielded.len() {
+        if yielded != m.yielded || out.items.iter().filter(|i| i.rel.is_some()).count() != m.yielded.len() {
             return Err(format!(
                 "{}: yielded {:?}, the model says {:?}",
                 describe(), yielded, m.yielded
